@@ -101,20 +101,22 @@ class LasAppender:
             )
             restore_needed = True
 
-        self.points_appender.append_points(points)
-        if self.header.point_count == 0:
-            # The mins and maxs of an empty file are zeros,
-            # they must not take part in the min/max of the appended points
-            # (forgotten only once the points are in the file: a refused or
-            # failed first append leaves the header of the empty file as it was)
-            f64info = np.finfo(np.float64)
-            self.header.maxs = np.ones(3, dtype=np.float64) * f64info.min
-            self.header.mins = np.ones(3, dtype=np.float64) * f64info.max
-        self.header.grow(points)
-
-        if restore_needed:
-            points.offsets, points.scales = saved_offsets, saved_scales
-            points.X, points.Y, points.Z = saved_X, saved_Y, saved_Z
+        try:
+            self.points_appender.append_points(points)
+            if self.header.point_count == 0:
+                # The mins and maxs of an empty file are zeros,
+                # they must not take part in the min/max of the appended points
+                # (forgotten only once the points are in the file: a refused or
+                # failed first append leaves the header of the empty file as it was)
+                f64info = np.finfo(np.float64)
+                self.header.maxs = np.ones(3, dtype=np.float64) * f64info.min
+                self.header.mins = np.ones(3, dtype=np.float64) * f64info.max
+            self.header.grow(points)
+        finally:
+            # also when the append fails: the caller's points are given back as they were
+            if restore_needed:
+                points.offsets, points.scales = saved_offsets, saved_scales
+                points.X, points.Y, points.Z = saved_X, saved_Y, saved_Z
 
     def close(self) -> None:
         try:
